@@ -52,8 +52,12 @@ func (s *sessionMetadatasState) mergeSessions(sessions []*api.SessionMetadatas) 
 	return nil
 }
 func (s *sessionMetadatasState) dump(event *api.StateBroadcastEvent) {
-	sessions := s.All()
-	for _, session := range sessions {
+	s.mu.Lock()
+	defer s.mu.Unlock()
+	// every entry, removed ones included: a peer that missed the removal
+	// broadcast learns about it from the full state.
+	for _, session := range s.sessions {
+		session := session // the event keeps a pointer to each entry
 		event.SessionMetadatas = append(event.SessionMetadatas, &session)
 	}
 }
